@@ -202,8 +202,13 @@ def check(ctx):
         t = agg.term("0")
         ok = (t[0] == "tryok" and is_call(t[1], codec.TRY_ARRAY_CONVERT) and t[1][2][0] == ("param", 0)
               and t[1][2][1][0] == "fn" and t[1][2][1][2] == DEC)
+        if not ok:
+            # the loop / iterator chain the helper stands for, over the input's own array
+            from lib.veclen import VecLen
+            ad = codec.array_of_decoded(prog, ks, pks, VecLen(ks), agg, "0")
+            ok = bool(ad) and ad[0] == ("param", 0) and ad[1] == "key::CoseKey"
     outs = [o for o in outcomes(ks, pks) if o["kind"] != "ok"]
-    ok = ok and len(outs) == 1 and outs[0]["kind"] == "propagate"
+    ok = ok and outs and all(o["kind"] == "propagate" for o in outs) and len(outs) <= 2
     ctx.ob("R-5", "keyset-elementwise", ok, "CoseKeySet = try_as_array_then_convert(CoseKey::from_cbor_value) of the input and nothing else", where=ks.span)
     check_convert_helper(ctx, "R-5")
 
